@@ -46,7 +46,7 @@ def jobs(tier):
         for k in (1, 2, 3):
             base = {"max": mx, "min": mn, "tasks": ["ret", "raise", "ret"], "clients": clients, "W": mx + 2,
                     "props": ["exactly_once", "nodeadlock", "stopped_clean", "no_run_after_stop"], "window_at": k, "twin_prog": "progress", "hold": [1]}
-            out.append((dict(base, name="c11-stop-busy-max{0}min{1}-op{2}".format(mx, mn, k)), dict(full, depth=full["depth"] - 2, timeout=600)))
+            out.append((dict(base, name="c11-stop-busy-max{0}min{1}-op{2}".format(mx, mn, k)), dict(full, depth=full["depth"] - 2, timeout=1800)))  # slowest single query 70-170 s idle
             if False and thorough and k == 3:
                 out.append((dict(base, name="c11-stop-busy-max{0}min{1}-op{2}".format(mx, mn, k)), ctx))
         # an enqueue landing while stop() is inside clear() (queue drained, workers joined)
@@ -70,7 +70,7 @@ def jobs(tier):
                     "prefix": [("rr_cond", "stop_markers_queued", [0] + list(range(1, 1 + mx + 1)))]}
             if mn == 0:
                 # (stop() has queued one stop marker per worker; both workers are still alive)
-                out.append((dict(base, name="c11-stop-two-workers-max{0}".format(mx)), dict(full, depth=full["depth"] + 6, timeout=600)))
+                out.append((dict(base, name="c11-stop-two-workers-max{0}".format(mx)), dict(full, depth=full["depth"] + 6, timeout=1800)))
         # a task that raises a BaseException (SystemExit-like): its worker dies, but the pool's
         # bookkeeping stays consistent: join() and stop() still return
         clients = [["start", "enq0", "join0", "stop"]]
